@@ -62,7 +62,12 @@ pub fn split_at_lens<'a>(lens: &[usize], bs: &'a [u8]) -> Vec<&'a [u8]> {
         out.push(a);
         rest = b;
     }
-    out.push(rest);
+    // the remainder is a further piece only when something is left (or when no piece was asked for): a chunk list
+    // that covers the message exactly ends with ITS last piece, so "the call that completes a block is the last call
+    // before the result" is reachable; a trailing empty call is written explicitly as a final `0`
+    if !rest.is_empty() || out.is_empty() {
+        out.push(rest);
+    }
     out
 }
 
